@@ -32,6 +32,7 @@ def base_archives():
         ("aes", files, {"folders": [[0, 2, 4]], "chains": [[("COPY", {}), ("AES", {})]]}, "pw"),
         ("aes-header", files, {"folders": [[0, 2, 4]], "chains": [C], "header": "lzma2+aes"}, "pw"),
         ("only-empty", [files[1], files[3]], {}, None),
+        ("single-file-folders-explicit-counts", files, {"folders": [[0], [2], [4]], "chains": [C, C, Z], "numunpack_omit": False, "crc": "folder"}, None),
     ]
 
 
@@ -123,5 +124,57 @@ def build(name_members_layout_pw):
     return {"name": name, "blob": blob, "tokens": [list(t) for t in tokens], "body": body, "layout": L, "password": pw}
 
 
-def seal(base, tokens):
-    return ref7z.seal(base["body"], ref7z.assemble(tokens), base["layout"], base["password"])
+def outer_tokens(base):
+    """Token stream of the EncodedHeader streams info (empty for a raw header)."""
+    cap = []
+
+    def grab(t):
+        cap.append(copy.deepcopy(t))
+        return t
+
+    ref7z.seal(base["body"], ref7z.assemble(base["tokens"]), base["layout"], base["password"], outer_edit=grab)
+    return cap[0] if cap else []
+
+
+PAIR_NUMS = (1 << 32, (1 << 63) - 1)
+
+
+def pair_mutants(tokens, all_ids: bool):
+    """Two deviations: one NUMBER token made huge AND one property id replaced (quick: by End only; thorough: by
+    every id) - a count that loses the section which would have bounded it."""
+    nums = [i for i, t in enumerate(tokens) if t[0] == "num" and not t[2].startswith("Files.") or (t[0] == "num" and t[2] == "Files.numfiles")]
+    ids = [i for i, t in enumerate(tokens) if t[0] == "id"]
+    for i in nums:
+        for big in PAIR_NUMS:
+            for j in ids:
+                for nid in (range(0, 27) if all_ids else (0,)):
+                    if nid == tokens[j][1]:
+                        continue
+                    t = copy.deepcopy(tokens)
+                    t[i][1] = big
+                    t[j][1] = nid
+                    yield f"pair:{tokens[i][2]}={big}&{tokens[j][2]}:id={nid}", t
+
+
+def mutants(base, pairs: str | None = None):
+    """(label, inner tokens, outer edit): the inner header's mutants, then every single-token mutation of the
+    streams info that describes the packed header (declared pack size, unpack size, CRC, coder list ...), then
+    (pairs = 'end' | 'all') the two-deviation mutants of pair_mutants."""
+    for label, toks in header_mutants(base["tokens"]):
+        yield label, toks, None
+    if pairs:
+        for label, toks in pair_mutants(base["tokens"], pairs == "all"):
+            yield label, toks, None
+    for i, tok in enumerate(outer_tokens(base)):
+        for mv in _mutations_of(tok):
+            yield f"outer:{tok[2]}:{tok[0]}={mv if not isinstance(mv, (bytes, list)) else (mv.hex()[:16] if isinstance(mv, bytes) else 'bits')}", base["tokens"], (i, mv)
+
+
+def seal(base, tokens, outer=None):
+    edit = None
+    if outer is not None:
+        def edit(t):
+            t = copy.deepcopy(t)
+            t[outer[0]][1] = outer[1]
+            return t
+    return ref7z.seal(base["body"], ref7z.assemble(tokens), base["layout"], base["password"], outer_edit=edit)
